@@ -123,6 +123,24 @@ func main() {
 	os.RemoveAll(outDir)
 	os.MkdirAll(outDir, 0o755)
 
+	// translator validation for this property: native vs engine
+	vres, verr := run.Validate(l, prop)
+	if verr != nil {
+		fmt.Fprintln(os.Stderr, "ERROR validation:", verr)
+		os.Exit(2)
+	}
+	validated, vmismatch := 0, 0
+	for _, v := range vres {
+		if v.Same {
+			validated++
+		} else {
+			vmismatch++
+			fmt.Printf("TRANSLATOR-MISMATCH %s\n    native: %q\n    engine: %q\n", v.Name, v.Native, v.Engine)
+		}
+	}
+	if len(vres) > 0 {
+		fmt.Printf("translator validation: %d of %d functions agree natively and in the engine\n", validated, len(vres))
+	}
 	var results []*run.HarnessResult
 	// harnesses run one after another, each using all workers (paths are the unit of parallelism)
 	for _, c := range checks {
@@ -208,9 +226,11 @@ func main() {
 			inconcl++
 		}
 	}
+	inconcl += vmismatch
 	if inconcl > 0 && exit == 0 {
 		exit = 2
 	}
+	validation = vres
 	writeEvidence(prop, *tier, seed, l, results, samples, knownHit, nviol, inconcl, time.Since(t0), loadT)
 	if exit == 2 {
 		fmt.Printf("INCONCLUSIVE property=%s (%d inconclusive results; see above)\n", prop, inconcl)
@@ -260,6 +280,8 @@ func loadFindings() map[string]*Finding {
 	}
 	return out
 }
+
+var validation []run.ValidationResult
 
 func writeEvidence(prop, tier string, seed int, l *run.Loaded, results []*run.HarnessResult, samples []interface{}, known []string, nviol, inconcl int, wall, loadT time.Duration) {
 	obligations, discharged, paths, steps := 0, 0, 0, 0
@@ -348,6 +370,8 @@ func writeEvidence(prop, tier string, seed int, l *run.Loaded, results []*run.Ha
 			"bounds":           bounds,
 			"samples":          samples,
 			"known_findings_hit": known,
+			"traces_validated_against_impl": countSame(validation),
+			"translator_validation": validation,
 			"inconclusive":     inconcl,
 			"exhaustive":       false,
 			"checker_cmd":      "bin/vcheck --tier " + tier + " " + prop,
@@ -361,6 +385,16 @@ func writeEvidence(prop, tier string, seed int, l *run.Loaded, results []*run.Ha
 	dir := filepath.Join(run.VerifDir(), "evidence")
 	os.MkdirAll(dir, 0o755)
 	os.WriteFile(filepath.Join(dir, prop+".json"), b, 0o644)
+}
+
+func countSame(v []run.ValidationResult) int {
+	n := 0
+	for _, x := range v {
+		if x.Same {
+			n++
+		}
+	}
+	return n
 }
 
 func round(f float64) float64 { return float64(int(f*100)) / 100 }
